@@ -223,7 +223,7 @@ type LogCase struct {
 	SpanLink  bool          `json:"spanLink"`  // the span carries one link
 	LinkTrace string        `json:"linkTrace"`
 	LinkSpan  string        `json:"linkSpan"`
-	Status    int32         `json:"status"`   // span status code 0..2
+	Status    int32         `json:"status"` // span status code 0..2
 	BulkUnit  string        `json:"bulkUnit"`
 	DocUnit   string        `json:"docUnit"`
 	HecUnit   string        `json:"hecUnit"`
